@@ -11,6 +11,7 @@ import (
 	"hash"
 	"io"
 	"sync"
+	"sync/atomic"
 	"unsafe"
 
 	ike "github.com/free5gc/ike"
@@ -110,6 +111,8 @@ var dhNames = map[int]string{2: dh.DH_1024_BIT_MODP, 14: dh.DH_2048_BIT_MODP}
 
 // newSA builds an IKESAKey from key octets given by the vector: the objects are keyed by the harness through
 // the algorithm types' public constructors, independent of GenerateKeyForIKESA.
+var wipeCount atomic.Int32
+
 func newSA(suite J, keys J, spy bool) (*saObj, error) {
 	k := new(security.IKESAKey)
 	k.EncrInfo = encr.StrToType(encrNames[gi(suite, "encr")])
@@ -145,9 +148,11 @@ func newSA(suite J, keys J, spy bool) (*saObj, error) {
 	}
 	k.Prf_i = k.PrfInfo.Init(tmp(k.SK_pi))
 	k.Prf_r = k.PrfInfo.Init(tmp(k.SK_pr))
-	for _, c := range scratch {
+	// (each object's buffers are wiped with another pattern: two ends keyed from wiped buffers must not agree by accident)
+	wn := byte(wipeCount.Add(1))
+	for j, c := range scratch {
 		for i := range c {
-			c[i] = 0xEE
+			c[i] = 0xEE ^ wn ^ byte(j*37+i*11)
 		}
 	}
 	if k.Integ_i == nil || k.Integ_r == nil || k.Prf_d == nil {
